@@ -95,6 +95,14 @@ Proof.
   destruct (find_chain c T); [reflexivity|]. cbn [set_tbl]. rewrite bytes_eqb_refl. reflexivity.
 Qed.
 
+Lemma nexec_createchain t c spec T :
+  nexec t (NCreateChain t c spec) (Some T) =
+  match find_chain c T with Some _ => None | None => Some (Some (T ++ [(c, [])])) end.
+Proof.
+  unfold nexec. cbn [nft_exec find_tbl]. rewrite bytes_eqb_refl.
+  destruct (find_chain c T); [reflexivity|]. cbn [set_tbl]. rewrite bytes_eqb_refl. reflexivity.
+Qed.
+
 Lemma nexec_flush t c T :
   nexec t (NFlushChain t c) (Some T) =
   match find_chain c T with Some _ => Some (Some (set_chain c [] T)) | None => None end.
@@ -121,7 +129,7 @@ Lemma nft_exec_sim t o L a :
   | None => nft_exec o L = None
   end.
 Proof.
-  intros Ht [Hf Hc]. destruct o as [x|x c spec|x c|x c args|x]; cbn [nftop_table] in Ht; subst x.
+  intros Ht [Hf Hc]. destruct o as [x|x c spec|x c|x c args|x|x c spec]; cbn [nftop_table] in Ht; subst x.
   - rewrite nexec_addtable. cbn [nft_exec]. rewrite Hf. destruct a as [T|].
     + exists L. split; [reflexivity|]. split; assumption.
     + eexists. split; [reflexivity|]. split.
@@ -143,12 +151,16 @@ Proof.
   - rewrite nexec_delete. cbn [nft_exec]. rewrite Hf. destruct a as [T|]; [|reflexivity].
     eexists. split; [reflexivity|]. split; [apply ft_del_same; exact Hc|].
     pose proof (ntcnt_del_le t t L). lia.
+  - destruct a as [T|].
+    + rewrite nexec_createchain. cbn [nft_exec]. rewrite Hf. destruct (find_chain c T); [reflexivity|].
+      eexists. split; [reflexivity|]. split; [apply ft_set_same with T; exact Hf | rewrite ntcnt_set; exact Hc].
+    + cbn [nft_exec]. rewrite Hf. reflexivity.
 Qed.
 
 Lemma nft_exec_frame t t' o L L' x :
   nftop_table o = t -> t <> t' -> nft_exec o L = Some L' -> NRL t' L x -> NRL t' L' x.
 Proof.
-  intros Ht Hne He [Hf Hc]. destruct o as [y|y c spec|y c|y c args|y]; cbn [nftop_table] in Ht; subst y;
+  intros Ht Hne He [Hf Hc]. destruct o as [y|y c spec|y c|y c args|y|y c spec]; cbn [nftop_table] in Ht; subst y;
     cbn [nft_exec] in He.
   - destruct (find_tbl t L); injection He as <-; [split; assumption|]. split.
     + rewrite ft_app, Hf. destruct x; [reflexivity|]. rewrite (beq_false _ _ Hne). reflexivity.
@@ -161,6 +173,8 @@ Proof.
     split; [rewrite ft_set_other; assumption | rewrite ntcnt_set; exact Hc].
   - destruct (find_tbl t L); [|discriminate]. injection He as <-.
     split; [rewrite ft_del_other; assumption | rewrite ntcnt_del_other; assumption].
+  - destruct (find_tbl t L) as [T|]; [|discriminate]. destruct (find_chain c T); [discriminate|]. injection He as <-.
+    split; [rewrite ft_set_other; assumption | rewrite ntcnt_set; exact Hc].
 Qed.
 
 (* ---- the abstract machine instance ---- *)
@@ -541,3 +555,40 @@ Proof.
   - cbv zeta. apply andb_false_iff. right. destruct (nth_cmd _ _); reflexivity.
 Qed.
 End NftMethod.
+
+(* ------------------------------------------------------------------ *)
+(* `nft create chain` (not issued by methods/nft.py; the kernel model answers it as the real tool does) *)
+
+Lemma nft_create_chain_spec t c spec L :
+  nft_exec (NCreateChain t c spec) L =
+  match find_tbl t L with
+  | Some T => match find_chain c T with Some _ => None | None => nft_exec (NAddChain t c spec) L end
+  | None => None
+  end.
+Proof.
+  cbn [nft_exec]. destruct (find_tbl t L) as [T|]; [|reflexivity]. destruct (find_chain c T); reflexivity.
+Qed.
+
+Lemma nft_create_chain_not_reentrant t c spec L L' :
+  nft_exec (NCreateChain t c spec) L = Some L' -> nft_exec (NCreateChain t c spec) L' = None.
+Proof.
+  cbn [nft_exec]. destruct (find_tbl t L) as [T|] eqn:Hf; [|discriminate].
+  destruct (find_chain c T) eqn:Hc; [discriminate|]. intros [= <-].
+  rewrite (ft_set_same t T _ L Hf). rewrite fc_app, Hc, bytes_eqb_refl. reflexivity.
+Qed.
+
+Lemma nft_add_chain_reentrant t c spec L L' :
+  nft_exec (NAddChain t c spec) L = Some L' -> nft_exec (NAddChain t c spec) L' = Some L'.
+Proof.
+  cbn [nft_exec]. destruct (find_tbl t L) as [T|] eqn:Hf; [|discriminate].
+  destruct (find_chain c T) eqn:Hc; intros [= <-].
+  - rewrite Hf, Hc. reflexivity.
+  - rewrite (ft_set_same t T _ L Hf). rewrite fc_app, Hc, bytes_eqb_refl. reflexivity.
+Qed.
+
+(* over a table a failed `delete table` left behind (the session's chain still in it) `create chain` fails where
+   `add chain` succeeds without changing anything *)
+Lemma nft_create_over_leftover t c spec spec' L T rs :
+  find_tbl t L = Some T -> find_chain c T = Some rs ->
+  nft_exec (NCreateChain t c spec) L = None /\ nft_exec (NAddChain t c spec') L = Some L.
+Proof. intros Hf Hc. cbn [nft_exec]. rewrite Hf, Hc. split; reflexivity. Qed.
